@@ -393,7 +393,9 @@ def c20_case(ctx: Ctx, case: dict):
             ref = exact[d]
             got = sympy_eval(R[i], pt, ode)
             lean_v = hp.ev(lean_rhs[i], base)
-            tol = 256 * spread[d] + mpf(2) ** -40 * abs(ref) + mpf("1e-300")
+            # sympy evaluates at 40 digits: what is exactly 0 in the model (a product with sin(pi), which the reference
+            # treats as the exact zero it is) comes out as a residue of 1e-40 times the size of the inputs
+            tol = 256 * spread[d] + mpf(2) ** -40 * abs(ref) + mpf("1e-300") + (mpf("1e-32") if ref == 0 else 0)
             ctx.count("rhs_entries")
             if mpmath.isfinite(lean_v) and abs(lean_v - ref) > tol:
                 ctx.broke("correspondence", "Impl.rhsMatrix value", json.dumps({"text": text, "state": sname}))
